@@ -278,6 +278,41 @@ def restore_local_names(tree: ast.Module, relpath: str):
                 break
 
 
+def restore_comprehension_names(tree: ast.Module, relpath: str):
+    """the variables of a comprehension are local to it: they get their reference names back even when that name is used elsewhere in
+    the function (another comprehension's `f`), as long as it does not occur inside this comprehension."""
+    ref = _ref().get(relpath)
+    if not ref:
+        return
+    for q, fn in _functions(tree):
+        want = ref.get(q)
+        if not want:
+            continue
+        by_key = {}
+        for k, names in want.items():
+            if k.startswith("comp "):
+                by_key.setdefault(k.rsplit(" @", 1)[0], names)
+        if not by_key:
+            continue
+        for comp in ast.walk(fn):
+            if not isinstance(comp, (ast.ListComp, ast.SetComp, ast.DictComp, ast.GeneratorExp)):
+                continue
+            for g in comp.generators:
+                cur = [x.id for x in ast.walk(g.target) if isinstance(x, ast.Name)]
+                key = _key("comp", ast.Tuple(elts=[g.target, g.iter], ctx=ast.Load()), cur)
+                exp = by_key.get(key)
+                if not exp or len(exp) != len(cur) or exp == cur:
+                    continue
+                inside = {x.id for x in ast.walk(comp) if isinstance(x, ast.Name)}
+                for c_, n_ in zip(cur, exp):
+                    if c_ != n_ and n_ not in inside:
+                        for x in ast.walk(comp):
+                            if isinstance(x, ast.Name) and x.id == c_:
+                                x.id = n_
+                        inside.discard(c_)
+                        inside.add(n_)
+
+
 def inline_fresh_temporaries(tree: ast.Module, relpath: str):
     """5. `tmp = E` where `tmp` is a local the reference does not know (no defining site with that key in the function),
     assigned once and read once, by the statement that follows, before anything else is called there: E is put back in
@@ -470,6 +505,7 @@ def canonicalise(tree: ast.Module, relpath: str, src: Optional[str] = None) -> a
         before = ast.dump(tree)
         directed_rewrites(tree, relpath)
         restore_local_names(tree, relpath)
+        restore_comprehension_names(tree, relpath)
         inline_fresh_temporaries(tree, relpath)
         if ast.dump(tree) == before:
             break
